@@ -45,9 +45,9 @@ type c01World struct {
 	// (deleted?, "<Go type>/<namespace>/<name>", generation), for the kinds the processor persists
 	delivered []string
 	w         *vpWorld // current incarnation of the controller
-	k8s      client.WithWatch
-	lastCfg  map[string]string // last file set handed to any incarnation's file manager
-	restarts int
+	k8s       client.WithWatch
+	lastCfg   map[string]string // last file set handed to any incarnation's file manager
+	restarts  int
 }
 
 func (cw *c01World) start() {
@@ -275,6 +275,8 @@ func c01Histories(out *vu.Out, rng *vu.Rng, n int, focusGrants bool) {
 			obj client.Object
 			// touchTo > 0: no event; writes that change nothing the controller watches move the object's resourceVersion up to this number
 			touchTo int
+			// alone: the batch collected so far is handled first, so that this event starts a batch of its own
+			alone bool
 		}
 		var pre, ops []op
 		for _, o := range objsA {
@@ -330,6 +332,18 @@ func c01Histories(out *vu.Out, rng *vu.Rng, n int, focusGrants bool) {
 				}
 			}
 			ops = append(head, tail...)
+		}
+		// in a quarter of the histories the last event of all is the deletion of an EndpointSlice, in a batch of its own: a delete
+		// event carries the name only, and nothing that follows repairs a wrong relevance decision
+		if !c01OwnershipOnly && r.Chance(1, 4) {
+			for k := len(ops) - 1; k >= 0; k-- {
+				if c01Kind(ops[k].obj) == "EndpointSlice" && ops[k].del {
+					o := ops[k]
+					o.alone = true
+					ops = append(append(ops[:k:k], ops[k+1:]...), o)
+					break
+				}
+			}
 		}
 		// ownership histories: in half of them the last event of all is a Gateway or GatewayClass update (nothing that
 		// follows repairs a wrong relevance decision)
@@ -456,6 +470,10 @@ func c01Histories(out *vu.Out, rng *vu.Rng, n int, focusGrants bool) {
 		for _, o := range ops {
 			kind := c01Kind(o.obj)
 			f := c01Filter(kind)
+			if o.alone {
+				flush()
+				humanOps = append(humanOps, "--- batch boundary")
+			}
 			if o.touchTo > 0 {
 				for k := 0; k < 12; k++ {
 					cur := o.obj.DeepCopyObject().(client.Object)
